@@ -463,9 +463,10 @@ def with_helpers(ctx, fi, exclude=(), only_private=True, depth=3, inline_locals=
                 if eligible(h) and not (is_tail and _as_expression(_body_no_doc(h.node)) is not None):
                     hb = _body_no_doc(h.node)
                     rets = [r for r in walk_nested_free(h.node) if isinstance(r, ast.Return)]
-                    tail_ret = (not is_tail) and hb and isinstance(hb[-1], ast.Return) and hb[-1].value is None
-                    # statement call: the helper returns nothing; tail call `return h(..)`: the helper's returns become ours
-                    if is_tail or (all(r.value is None for r in rets) and len(rets) == (1 if tail_ret else 0)):
+                    tail_ret = (not is_tail) and hb and isinstance(hb[-1], ast.Return)
+                    # statement call: the helper returns nothing, or its only return is its last statement (the value is
+                    # discarded by the caller); tail call `return h(..)`: the helper's returns become ours
+                    if is_tail or len(rets) == (1 if tail_ret else 0):
                         m = _bind(h, s.value)
                         if m is not None:
                             counter[0] += 1
